@@ -704,7 +704,7 @@ def run(ctx):
                             "spelling) = plaintext; published vectors the reference authenticates decrypt in joserfc; every run replayed in the model")
     if cases:
         ctx.sample({"coq_case": cases[0][:300]})
-    res = J.coq_eval(cases)
+    res = J.coq_eval(cases, jobs=10 if ctx.quick else 14)
     ctx.coverage["traces_validated_against_impl"] = res["evaluated"]
     ctx.coverage["disagreements_checked"] = len(res["failing"])
     direct = len(ctx.violations)
